@@ -114,7 +114,7 @@ def _oracle_words(frags):
     return [w for w in ''.join(buf).split(MARK) if w != '']
 
 
-@lemma('W1a.make-words', 'C10', quick=[{'k1': a, 'k2': b, 'wa': wa, 'wb': wb} for a in (1, 2) for b in (1, 2) for wa in (False, True) for wb in (False, True)],
+@lemma('W1a.make-words', 'C10', quick=[{'k1': a, 'k2': b, 'wa': wa, 'wb': wb} for a, b in ((1, 1), (2, 1), (1, 2)) for wa in (False, True) for wb in (False, True)],
        thorough=[{'k1': a, 'k2': b, 'wa': wa, 'wb': wb} for a in (0, 1, 2, 3) for b in (0, 1, 2, 3) for wa in (False, True) for wb in (False, True)], timeout=900,
        covers=['markdown_renderer.py:MarkdownRenderer.make_words'],
        note='two fragments + a trailing hard/soft break fragment; texts over {x, space, newline, tab} of each length; per-fragment wordwrap flag symbolic')
@@ -214,14 +214,14 @@ def words_inert(s):
     return True
 
 
-@lemma('W4.meaning', 'C10', quick=by('c1', list(W4_ALPH), [{'k': 3}]), thorough=by('c1', list(W4_ALPH), [{'k': 3}, {'k': 4, 'timeout': 3000}]),
+@lemma('W4.meaning', 'C10', quick=by('c1', list(W4_ALPH), by('c2', list(W4_ALPH), [{'k': 3}])), thorough=by('c1', list(W4_ALPH), by('c2', list(W4_ALPH), [{'k': 3}, {'k': 4, 'timeout': 3000}])),
        timeout=900, per_path=120,
        covers=['markdown_renderer.py:MarkdownRenderer.render', 'markdown_renderer.py:MarkdownRenderer.fragments_to_lines',
                'markdown_renderer.py:MarkdownRenderer.render_quote', 'markdown_renderer.py:MarkdownRenderer.render_list_item'],
        note='whole pipeline, documents of k characters over {a, space, newline, >, -, *, `}, L >= 1 an unbounded symbolic int: same meaning, bound honoured, second reflow is the identity')
 def w4_meaning(c1: int, c2: int, c3: int, c4: int, L: int) -> bool:
     """
-    pre: all_in(W4_ALPH, P('k'), c1, c2, c3, c4) and fixed(c1, 'c1') and L >= 1
+    pre: all_in(W4_ALPH, P('k'), c1, c2, c3, c4) and fixed(c1, 'c1') and fixed(c2, 'c2') and L >= 1
     pre: words_inert(S(P('k'), c1, c2, c3, c4))
     post: _
     """
